@@ -15,14 +15,23 @@ def timeOk (q : HistQuery) (e : HistEntry) : Bool :=
   q.fromT.all (fun t => t ≤ e.time) && q.afterT.all (fun t => t < e.time) &&
   q.beforeT.all (fun t => e.time < t) && q.untilT.all (fun t => e.time ≤ t)
 
-/-- the stored details carry a string `topic` equal to `t` -/
-def topicIs (e : HistEntry) (t : String) : Bool :=
+/-- the topic of the publication entry `e` was retained for, in the store of a subscription with
+    topic `sub`, is `t`: the stored details carry a string `topic` equal to `t` (pattern-based
+    subscriptions), or they carry no `topic` at all (exact-match subscription: every event has the
+    subscription's own topic) and `sub` is `t` -/
+def topicIs (sub : String) (e : HistEntry) (t : String) : Bool :=
   match e.details.get? "topic" with
   | some (.str u) => u == t
+  | none => sub == t
   | _ => false
 
-/-- the `topic` filter ("" = absent) -/
-def topicOk (q : HistQuery) (e : HistEntry) : Bool := q.topic == "" || topicIs e q.topic
+/-- the `topic` filter ("" = absent); `q.subTopic` is the topic of the subscription queried -/
+def topicOk (q : HistQuery) (e : HistEntry) : Bool := q.topic == "" || topicIs q.subTopic e q.topic
+
+/-- the query `get_events` runs for the caller's (parsed) query `q` on subscription `id`: the handler
+    fills in the topic of that subscription -/
+def subQuery (r : Realm) (id : Nat) (q : HistQuery) : HistQuery :=
+  { q with subTopic := ((r.broker.findId id).map (·.topic)).getD "" }
 
 /-- `from_publication = x`: the entries from the first one with publication id `x` on;
     nothing if there is none.  (0 = bound absent.) -/
